@@ -23,7 +23,11 @@ Definition nmin (x y : num) : num := Rmin x y.
 Definition nmax (x y : num) : num := Rmax x y.
 Definition npow (x : num) (n : nat) : num := pow x n.
 (* x ** y for a real exponent (only used by the Sidak correction) *)
-Definition nrpow (x y : num) : num := Rpower x y.
+(* Python float power for a non-negative base: 0**y is 0 for y > 0 and 1 for y = 0 (Rpower 0 y would be 1) *)
+Definition nrpow (x y : num) : num :=
+  if Req_EM_T x 0 then (if Req_EM_T y 0 then 1%R else 0%R) else Rpower x y.
+Definition nofnat (n : nat) : num := INR n.
+Fixpoint nharm (m : nat) : num := match m with O => 0%R | S k => (nharm k + 1 / INR (S k))%R end.
 (* junk value standing for "Python raises here"; every theorem excludes these paths by hypothesis *)
 Definition nraise : num := 0%R.
 Definition dist_raise : dist num := mk_dist (fun _ => 0%R) (fun _ => 0%R) (fun _ => 0%R) (fun _ => 0%R).
